@@ -159,6 +159,10 @@ def build_router(case: dict, trace: Trace, loop: vclock.VLoop, fn_tag: str = "",
             if k == "raise":
                 leave(e, "raised")
                 raise EXC[o["exc"]](o.get("text", ""))
+            if k == "cancel":
+                # the actor itself ends cancelled (e.g. it awaited something that was cancelled elsewhere)
+                leave(e, "self-cancelled")
+                raise asyncio.CancelledError()
             if k == "timeout":
                 await asyncio.sleep(m.parameters.execution_timeout.total_seconds() + o.get("extra", 5.0))
                 leave(e, "returned-late")
